@@ -2,7 +2,7 @@
 Correspondence (metamorphic, real pipeline): programs from all generators; variants: permutation of the statements (each kept in
 its part), duplication of statements, the same sub-formula written in several theory atoms, distribution over 2-3 input files."""
 import json
-import gen, lang, meta, findings
+import gen, lang, meta, findings, ftstruct
 from props import c04, c03
 
 PROP_FILE = 'Props/C12.v'
@@ -132,7 +132,18 @@ def run(ctx):
                         'input': {'rules': progs[i], 'variant': kind, 'texts': texts, 'original': lang.prog_txt(progs[i]), 'H': H}})
         elif 'ok' in r and any(r['ok'][h] for h in r['ok']):
             nontriv.add((kind, tuple(texts)))
-    cov = {'evaluations': len(inputs), 'distinct_nontrivial': len(nontriv),
+    # structural: the rewritten program of the statements given as ONE text and cut into TWO input texts, both against the transformer model
+    # (one counter for the auxiliary atoms of head formulas and one set of future predicates across all inputs)
+    sp = [p for p in progs if ftstruct.in_fragment(p)]
+    sstat = {}
+    for split in (False, True):
+        for p, r in zip(sp, ftstruct.compare(ctx, sp, split=split)):
+            k = r['status'] + ('/two-inputs' if split else '/one-input')
+            sstat[k] = sstat.get(k, 0) + 1
+            if r['status'] not in ('agree', 'agree-rejected'):
+                cex.append({'key': 'c12:transform:%s:%s' % (split, r['program'].replace('\n', ' ')), 'what': 'transform() and Model/FutTransform.transform_program differ (%s): %s' % (
+                    'two input texts' if split else 'one input text', r.get('what')), 'input': {'transform_rules': p, 'split': split, 'program': r['program']}})
+    cov = {'evaluations': len(inputs) + 2 * len(sp), 'transform_structure_status': sstat, 'distinct_nontrivial': len(nontriv),
            'rule': 'base programs from the core / future / body-formula / head-formula / del generators; variants %s; horizons 0..%d compared with multiplicity against the original; '
                    'non-trivial = distinct variant with at least one answer set' % (json.dumps(kinds), H),
            'samples': [{'kind': index[j][1], 'texts': inputs[j]} for j in (1, 2, 3)]}
@@ -141,5 +152,7 @@ def run(ctx):
 
 def replay(ctx, payload):
     inp = payload['input']
+    if 'transform_rules' in inp:
+        return ftstruct.compare(ctx, [inp['transform_rules']], split=inp.get('split', False))[0]['status'] not in ('agree', 'agree-rejected')
     res = meta.answer_sets(ctx, [[inp['original']], inp['texts']], inp.get('H', 3), hide=('wobs',))
     return not meta.same(res[0], res[1])
